@@ -71,6 +71,22 @@ def item_text(t):
         if not 0 <= v < 2 ** 32:
             return "REJ"
         return fmt_g12(struct.unpack("<f", struct.pack("<I", v))[0])
+    if k == "FMI":        # Fmt("%07d", int): a value iff the text passes the constructor's assert (length < 32)
+        v = int(t[1])
+        if not -2 ** 31 <= v < 2 ** 31:
+            return "REJ"
+        txt = ("%07d" % v).encode()
+        return txt if len(txt) < 32 else "REJ"
+    if k == "FMD":        # Fmt("%10.4f", double)
+        v = int(t[1])
+        if not 0 <= v < 2 ** 64:
+            return "REJ"
+        d = struct.unpack("<d", struct.pack("<Q", v))[0]
+        if d != d:
+            txt = (b"      -nan" if v >> 63 else b"       nan")
+        else:
+            txt = ("%10.4f" % d).encode()
+        return txt if len(txt) < 32 else "REJ"
     raise ValueError("item " + " ".join(t))
 
 
@@ -138,7 +154,7 @@ def oracle(case, lines, cap, kmax):
         k = t[0]
         if "OUT-OF-BOUNDS" in out:
             raise Fail(i, "after %r the cursor is outside the buffer: %s" % (op, out))
-        if k in ("B", "C", "S", "SN", "STR", "SP", "I", "P", "D", "F", "DS", "RST"):
+        if k in ("B", "C", "S", "SN", "STR", "SP", "I", "P", "D", "F", "FMI", "FMD", "DS", "RST"):
             if k == "RST":
                 content = b""
             exp = None if k in ("DS", "RST") else item_text(t)
@@ -193,6 +209,16 @@ def oracle(case, lines, cap, kmax):
             m = re.match(r"^fmt=(\w*) snprintf=(\w*)$", nd)
             if not m or m.group(1) != m.group(2):
                 raise Fail(i, "Fmt differs from snprintf: %s" % out)
+        elif k == "SE":
+            m = re.match(r"^where=(buf|static) len=(\d+) size=(\d+) text=(\w*)$", nd)
+            if not m or det != "ok":
+                raise Fail(i, "unparsable output %r" % out)
+            txt = bytes.fromhex(m.group(4))
+            # the errno text of a line: a C string; inside strerror_tl's buffer it is shorter than the buffer; it is what strerror says
+            if int(m.group(2)) != len(txt) or (m.group(1) == "buf" and len(txt) >= int(m.group(3))):
+                raise Fail(i, "strerror_tl(%s): text of %s bytes in a buffer of %s" % (t[1], m.group(2), m.group(3)))
+            if txt != os.strerror(int(t[1])).encode():
+                raise Fail(i, "strerror_tl(%s) = %r, strerror says %r" % (t[1], txt, os.strerror(int(t[1]))))
         elif k in ("SI", "IEC"):
             n = int(t[1])
             if n < 0 or n >= 2 ** 63:
@@ -297,6 +323,12 @@ def oracle(case, lines, cap, kmax):
                 pieces += [(b"m42", "message"), (b" - C17_site.cc:%d\n" % (4244 + mac), "base name and line")]
                 check_pieces(line, pieces, cap, kmax, i, "macro line")
         elif k == "NOW":
+            mflags = re.match(r"^ok main=(\d) main2=(\d) thread=(\d) child=(\d) childthread=(\d)$", det)
+            if not mflags:
+                raise Fail(i, "unparsable output %r" % out)
+            if mflags.groups() != ("1",) * 5:
+                who = [w for w, f in zip(("main", "main2", "thread", "child", "childthread"), mflags.groups()) if f != "1"]
+                raise Fail(i, "true thread id: the line logged by %s does not carry the kernel thread id of the thread that logged it" % ", ".join(who))
             samples = {}
             for tok in nd.split():
                 if ":" in tok and "t0=" in tok:
@@ -378,8 +410,13 @@ def rand_item(rng, maxlen=40):
         return "P %d" % rng.choice([0, 1, 2 ** 64 - 1, 2 ** 63, rng.getrandbits(64), rng.getrandbits(rng.randint(1, 48)), 16 ** rng.randint(1, 15) - 1])
     if c < 0.52:
         return "D %d" % double_bits(rng)
-    if c < 0.57:
+    if c < 0.56:
         return "F %d" % rng.choice([0, 0x7F800000, 0x7FC00000, 0x3F800000, 0x40490FDB, rng.getrandbits(32)])
+    if c < 0.57:
+        if rng.random() < 0.5:
+            return "FMI %d" % rng.choice([0, -1, 2 ** 31 - 1, -2 ** 31, rng.randint(-10 ** 7, 10 ** 7), 2 ** 31])
+        return "FMD %d" % rng.choice([double_bits(rng), struct.unpack("<Q", struct.pack("<d", rng.uniform(-10 ** 6, 10 ** 6)))[0],
+                                      struct.unpack("<Q", struct.pack("<d", 10.0 ** rng.randint(18, 30)))[0]])
     if c < 0.62:
         return "B %d" % rng.randint(0, 1)
     if c < 0.70:
@@ -451,6 +488,12 @@ def gen_boundary(rng):
     for b in (0, 0x80000000, 0x7F800000, 0xFF800000, 0x7FC00000, 1, 0x3F800000, 0x7F7FFFFF, 0x00800000, 2 ** 32):
         ops.append("F %d" % b)
     ops += ["B 0", "B 1", "SN", "S -", "S 00", "STR 00", "C 0", "C 255"]
+    # Fmt: texts of 7..11 characters, and doubles whose %10.4f text reaches / passes the 31 characters the buffer can hold
+    ops += ["FMI 0", "FMI -1", "FMI 2147483647", "FMI -2147483648", "FMI 2147483648", "FMI -2147483649"]
+    for e in (0, 5, 20, 24, 25, 26, 27, 300):
+        for sgn in (1.0, -1.0):
+            ops.append("FMD %d" % struct.unpack("<Q", struct.pack("<d", sgn * 1.5 * 10.0 ** e))[0])
+    ops += ["FMD %d" % b for b in (0, 1 << 63, 0x7FF0000000000000, 0xFFF0000000000000, 0x7FF8000000000000, 0xFFF8000000000000, 2 ** 64)]
     chunk = 60
     for i in range(0, len(ops), chunk):
         body = []
@@ -460,6 +503,7 @@ def gen_boundary(rng):
                 body.append("DS")
                 body.append("RST")
         cases.append(vlib.Case("b%d" % (i // chunk), "", body, "boundary-values"))
+    cases.append(vlib.Case("strerror", "", ["SE %d" % e for e in (0, 1, 2, 11, 13, 32, 104, 110, 133, 134, 9999, 65536, 2 ** 31 - 1, -1, -2 ** 31)], "strerror_tl"))
     for i in range(8):
         cases.append(vlib.Case("fm%d" % i, "", ["FM 0 %d" % rng.choice([0, -1, 2 ** 31 - 1, -2 ** 31]), "FM 1 %d" % rng.randint(0, 999999),
                                                 "FM 2 %d" % rng.choice([-1, 0, 2 ** 63 - 1, rng.getrandbits(62)]), "FM 3 %d" % struct.unpack("<Q", struct.pack("<d", rng.randint(-10 ** 12, 10 ** 12) / 1000.0))[0]], "Fmt"))
@@ -667,7 +711,7 @@ def nontrivial(case, lines):
     for op, ln in zip(case.ops, lines[1:]):
         k = op.split()[0]
         m = STREAM.match(ln.partition(" |nd ")[0])
-        if m and m.group(5) == "-" and k not in ("DS", "RST", "S", "STR", "SP"):
+        if m and m.group(5) == "-" and k not in ("DS", "RST", "S", "STR", "SP", "FMI", "FMD"):
             ev.add("dropped-" + ("numeric" if k in ("I", "P", "D", "F") else "append"))
         if m and int(m.group(3)) < 64:
             ev.add("near-full")
@@ -675,7 +719,7 @@ def nontrivial(case, lines):
             ev.add("long-line")
         if k == "LOG" and "errno=0" not in op:
             ev.add("errno")
-        if k in ("IR", "PRX", "M", "NOW", "SI", "IEC", "FM"):
+        if k in ("IR", "PRX", "M", "NOW", "SI", "IEC", "FM", "SE"):
             ev.add(k)
         if ln == "rejected":
             ev.add("rejected")
@@ -804,7 +848,8 @@ def run(chk, replay=None):
                        "(known findings excepted)", not oracle_bad)
     chk.add_obligation("translator: no FALLBACK/MISSING piece (tables, fit tests, gates, ladders, constants regenerated from the sources)",
                        not [p for p in pr["problems"] if "gen_C17" in p or "MISSING" in p])
-    chk.trusted("extraction: ExtrOcamlBasic only; extract/util.ml + extract/C17_driver.ml (OCaml 4.13.1; its Printf %.12g and Unix.gmtime are the glibc oracles of the model run)",
+    chk.trusted("extraction: ExtrOcamlBasic only; extract/util.ml + extract/C17_driver.ml (OCaml 4.13.1; the %.12g text is the MODEL's extracted fmt_g12, no library oracle; Unix.gmtime is the stand-in for C20's conversion; "
+                "OCaml's Printf renders the Fmt item texts %07d / %10.4f, which are oracle inputs of the model like the errno text)",
                 "harness/C17_driver.cc: #define private public for buffer_/data_/SourceFile; -Wl,--wrap=gettimeofday,syscall for scripted time/tid in LOG/M ops (real clock and tid in NOW ops)",
                 "translator lib/gen_consts.py + lib/gen_C17.py (clang 14 JSON AST): constants, digit tables, LogLevelName, fit tests, level gates, formatSI/IEC ladders",
                 "glibc snprintf/strerror_r/gmtime, Python's %d/%X/%.12g formatting and time.gmtime in the oracle",
@@ -816,11 +861,15 @@ def run(chk, replay=None):
                 "neighbours at the spacing of doubles, F-9's range, decimal ties +-2, dense random n against the real functions): that CPU and compiler implement "
                 "IEEE-754 binary64 for static_cast<double>(int64_t), operator/ and operator< (x86-64 SSE2, round-to-nearest mode, no -ffast-math), and that "
                 "glibc's printf implements that %.<p>f specification",
-                "axioms of Coq's real numbers, used ONLY by C17_binary64_semantics, C17_ieee754_bit_level and C17_printf_fixed_spec (via Flocq 4 and Coq.Reals; "
+                "axioms of Coq's real numbers, used ONLY by C17_binary64_semantics, C17_ieee754_bit_level, C17_printf_fixed_spec and C17_g12_spec (via Flocq 4 and Coq.Reals; "
                 "every other theorem of C17 is closed under the global context): ClassicalDedekindReals.sig_not_dec, ClassicalDedekindReals.sig_forall_dec, "
                 "FunctionalExtensionality.functional_extensionality_dep, Classical_Prop.classic",
                 "Flocq 4.1 (installed under user-contrib/Flocq): Core (round, FLT_exp, FIX_exp, ZnearestE) as the definition of rounding to nearest even, "
                 "IEEE754.BinarySingleNaN (binary_float, binary_normalize, Bdiv, Bltb and their correctness theorems) as the definition of binary64",
+                "CurrentThread tid cache (cacheTid, tid, afterFork statement list, pthread_atfork registration, sizes, initial values), LogStream.h operators "
+                "(bool / NULL literals, append shapes), Fmt (buffer size, length assert, static_assert) and strerror_tl's shape are regenerated by lib/gen_C17.py; "
+                "C17_tid_cache_generated / C17_stream_ops_generated are their side conditions",
+                "Flocq IEEE754.Binary + Bits (b64_of_bits) as the definition of the 64-bit encoding of a double (C17_g12_spec)",
                 "Logger::Impl::formatTime: formats, lengths, refresh test and buffer sizes are regenerated from Logging.cc by lib/gen_C17.py and interpreted by the "
                 "model (mini_printf: %d, %<w>d, %0<w>d only); C17_logger_time_generated is the side condition tying them to the line shape")
 
@@ -888,7 +937,12 @@ def run(chk, replay=None):
                              ("\n--- coq log tail ---\n" + pr["log"][-3000:] if not pr["ok"] else ""))
         chk.violation(p, "; ".join(what), no_input=True)
     return chk.finish(level="proof", assumptions=[
-        "snprintf(\"%.12g\") yields at most 24 characters (Section hypothesis of C17_in_bounds / C17_line_shape; DESIGN 3.4)",
+        "operator<<(double): the 24-character bound is no longer assumed: C17_g12_length proves <= 19 characters for every 64-bit pattern of the model's "
+        "fmt_g12, C17_g12_spec that its digits are the correctly rounded 12-significant-digit decimal (Flocq); that glibc's snprintf(\"%.12g\") prints "
+        "exactly that text is tested by the differential run (extracted fmt_g12 vs the real operator<<(double)), not proved",
+        "thread ids: C17_tid_text_matches_tid holds for the model's tid cache with the atfork child handler interpreted from the regenerated statements of "
+        "afterFork; that pthread_atfork runs the handler in the forked child and that TLS is copied by fork / fresh in a new thread is the platform's "
+        "(tested by the NOW samples: real fork, real threads, gettid of the emitter)",
         "the broken-down time handed to the line model is TimeZone::toUtcTime/toLocalTime of the second (C20); the harness uses glibc gmtime as its stand-in",
         "that time stamp and thread id are the true ones is established by the harness only (call-window inequalities, gettid of the emitting thread, forked child)",
         "formatSI/formatIEC: C17_si_width / C17_iec_width / C17_units_accurate / C17_significant_digits hold for every 0 <= n < 2^63 of the model; its conversion, "
